@@ -483,14 +483,16 @@ def rule_partial_binding_validated(check, rule):
     fi = repo.func('_autoforwards:autoforwards_partial')
     check.analysed(fi)
     par = fi.params()[0][0]
+    from .callgraph import resolve_once
     plain = [c for c in ast.walk(fi.node) if isinstance(c, ast.Call) and norm(c.func).endswith('_signatures.signature') and c.args
-             and norm(c.args[0]) in (par, '%s.func' % par)]
+             and norm(resolve_once(fi.node, c.args[0])) in (par, '%s.func' % par)]
     plain_names = set(t.id for a in ast.walk(fi.node) if isinstance(a, ast.Assign) and a.value in plain for t in a.targets if isinstance(t, ast.Name))
     all_masks = [c for c in ast.walk(fi.node) if isinstance(c, ast.Call) and norm(c.func).split('.')[-1] in ('_mask', 'mask')]
     # (the mask of the function's own signature *is* the validation; the masks judged are those of anything else)
-    validating = [c for c in all_masks if c.args and isinstance(c.args[0], ast.Name) and c.args[0].id in plain_names]
+    validating = [c for c in all_masks if c.args and ((isinstance(c.args[0], ast.Name) and c.args[0].id in plain_names) or
+                                                       (isinstance(resolve_once(fi.node, c.args[0]), ast.Name) and resolve_once(fi.node, c.args[0]).id in plain_names))]
     masks = [c for c in all_masks if c not in validating]
-    plain = [c for c in plain if norm(c.args[0]) == par] + validating
+    plain = [c for c in plain if norm(resolve_once(fi.node, c.args[0])) == par] + validating
     key = 'partial-binding-validated'
     st = '%s %s' % (fi.loc(), fi.key)
     if not masks:
@@ -506,3 +508,37 @@ def rule_partial_binding_validated(check, rule):
                         'positional-only is let through to **kwargs', key=key,
                         witness='def w(func, *args, **kwargs): return func(*args, **kwargs); def g(a, /, **kwargs): ...; '
                                 'sigtools.signature(partial(w, g, func=g)) returns a signature although no call of it succeeds')
+
+
+def rule_narrowed_kind_compared(check, rule):
+    """C19.R6b (round 8): autoforwards_partial gives up when a bound keyword names a parameter whose kind *discovery changed* -- positional-only
+    in the discovered signature, regular in the function's own def -- because masking would mistake it for one the keyword cannot reach.
+    That is a comparison of two kinds.  Testing the discovered kind alone also gives up for a parameter that really is positional-only
+    (where the keyword rightly goes to **kwargs), and the partial object falls back to a signature that accepts what it rejects."""
+    import ast
+    from .index import norm
+    repo = check.repo
+    fi = repo.func('_autoforwards:autoforwards_partial')
+    check.analysed(fi)
+    key = 'narrowed-kind-compared'
+    tests = []
+    for lp in ast.walk(fi.node):
+        if isinstance(lp, ast.For) and 'keywords' in norm(lp.iter):
+            for x in ast.walk(lp):
+                if isinstance(x, ast.If) and any(isinstance(r, ast.Raise) for r in ast.walk(x)):
+                    tests.append(x)
+    if not tests:
+        check.holds(rule, '%s %s' % (fi.loc(), fi.key), 'no per-keyword exit in autoforwards_partial', key=key, nontrivial=False)
+        return
+    for t in tests:
+        kinds = [c for c in ast.walk(t.test) if isinstance(c, ast.Compare) and all(isinstance(o, ast.Attribute) and o.attr == 'kind'
+                                                                                  for o in [c.left] + list(c.comparators))]
+        two_sigs = [c for c in kinds if len(set(norm(o.value).split('.parameters')[0] for o in [c.left] + list(c.comparators))) >= 2]
+        st = '%s %s' % (fi.loc(t), fi.key)
+        if two_sigs:
+            check.holds(rule, st, 'the per-keyword exit compares the discovered kind with the kind in the function\'s own def', key=key)
+        else:
+            check.violation(rule, st, 'the per-keyword exit (%s) does not compare the discovered kind with the real one: it is also taken for a parameter that '
+                            'really is positional-only, and the partial object falls back to a signature that accepts what it rejects'
+                            % norm(t.test)[:70], key=key,
+                            witness='def w(f, *args, **kwargs): return f(*args, **kwargs); def g(key, /, **kwargs): ...; partial(w, g, key=1)')
